@@ -405,3 +405,146 @@ func RejectedLayouts() []*Custom {
 		mk("V-tworesults", "func (p *parser) on_s(n int) (any, error) { return nil, nil }\nfunc (p *parser) on_num(n Token) int { return 0 }\nfunc (p *parser) on_num__neg(_ Token, n Token) int { return 0 }\n", "action returns two values"),
 	}
 }
+
+// BoundsLayouts: items for C16 whose actions return values of interface type,
+// some of them nil (the corpus parser always returns *Node). The harness checks
+// that every reduction of a user production with a non-empty span is followed at
+// once by _onBounds with that very result and the first and last token.
+func BoundsLayouts() []*Custom {
+	const lox = `@lexer
+ID = 'i'
+EQ = '='
+NUM = 'n'
+SEMI = ';'
+
+@parser
+@start prog = stmt*
+stmt = ID EQ NUM SEMI
+     | SEMI
+`
+	const parserGo = `package PKG
+
+type Token struct {
+	Kind int
+	Idx  int
+}
+
+type Node interface{ node() }
+
+type Assign struct{ At int }
+
+func (*Assign) node() {}
+
+// hEvent: 'A' = action of stmt, 'P' = action of prog, 'B' = _onBounds
+type hEvent struct {
+	Kind       byte
+	Nil        bool
+	Begin, End int
+	Same       bool // 'B': the artifact is the value the preceding action returned
+}
+
+type parser struct {
+	lox
+	events []hEvent
+	last   any
+}
+
+func (p *parser) on_prog(ss []Node) []Node {
+	p.events = append(p.events, hEvent{Kind: 'P'})
+	p.last = ss
+	return ss
+}
+
+func (p *parser) on_stmt(id Token, _ Token, _ Token, semi Token) Node {
+	p.events = append(p.events, hEvent{Kind: 'A', Begin: id.Idx, End: semi.Idx})
+	a := &Assign{id.Idx}
+	p.last = Node(a)
+	return a
+}
+
+// an empty statement has no tree
+func (p *parser) on_stmt__empty(semi Token) Node {
+	p.events = append(p.events, hEvent{Kind: 'A', Nil: true, Begin: semi.Idx, End: semi.Idx})
+	p.last = nil
+	return nil
+}
+
+func (p *parser) _onBounds(r any, begin, end Token) {
+	same := false
+	switch v := r.(type) {
+	case nil:
+		same = p.last == nil
+	case *Assign:
+		l, ok := p.last.(*Assign)
+		same = ok && l == v
+	}
+	p.events = append(p.events, hEvent{Kind: 'B', Nil: r == nil, Begin: begin.Idx, End: end.Idx, Same: same})
+}
+`
+	const harness = `package PKG
+
+import "vgen/vrt"
+
+type hLexer struct {
+	toks []int
+	pos  int
+}
+
+func (l *hLexer) ReadToken() (Token, int) {
+	if l.pos >= len(l.toks) {
+		return Token{Kind: EOF, Idx: len(l.toks)}, EOF
+	}
+	i := l.pos
+	l.pos++
+	return Token{Kind: l.toks[i], Idx: i}, l.toks[i]
+}
+
+// H_NilBounds: statements tile the input, so the span of the k-th statement is
+// known; each statement action must be followed at once by its _onBounds call.
+func H_NilBounds() {
+	n := vrt.Param("n", 3)
+	toks := make([]int, n)
+	for i := range toks {
+		t := vrt.Int(vrt.Name("t", i))
+		vrt.Assume(vrt.And(t >= ID, t <= SEMI))
+		toks[i] = t
+	}
+	p := &parser{}
+	if !p.parse(&hLexer{toks: toks}) {
+		return
+	}
+	vrt.Reach("accepted")
+	pos := 0
+	stmts := 0
+	for i, e := range p.events {
+		switch e.Kind {
+		case 'A':
+			stmts++
+			width := 4
+			if e.Nil {
+				width = 1
+				vrt.Reach("nil-result")
+			}
+			vrt.Assert(e.Begin == pos && e.End == pos+width-1, "statement-span")
+			ok := i+1 < len(p.events) && p.events[i+1].Kind == 'B'
+			vrt.Assert(ok, "onBounds-right-after-the-action-of-a-non-empty-reduction")
+			if ok {
+				b := p.events[i+1]
+				vrt.Assert(b.Same && b.Nil == e.Nil, "onBounds-gets-the-action-result")
+				vrt.Assert(b.Begin == pos && b.End == pos+width-1, "onBounds-gets-first-and-last-token")
+			}
+			pos += width
+		case 'P':
+			follows := i+1 < len(p.events) && p.events[i+1].Kind == 'B'
+			vrt.Assert(follows == (n > 0), "start-rule-bounds-iff-non-empty")
+			if follows {
+				vrt.Assert(p.events[i+1].Begin == 0 && p.events[i+1].End == n-1, "start-rule-span")
+			}
+		}
+	}
+	vrt.Assert(pos == n, "statements-tile-the-input")
+}
+`
+	return []*Custom{{Name: "B-nilresult", Lox: lox, ParserGo: parserGo, HarnessGo: harness,
+		Note: "actions of interface type; the empty statement returns a nil interface value"}}
+}
